@@ -97,10 +97,66 @@ Proof.
   pose proof (window_ticks_bound_l w) as HW. unfold window_ticks in HW. pose proof (zlen_nonneg (reset_tabs (Z.max (Z.min w 132) 1))). cbn [length] in Hl. nia.
 Qed.
 
-Lemma ticks_bound_l t p s ch n : Inv09 t -> 0 <= n -> nlen (nums p) <= n -> ch <> 98 ->
+(* ---- REP: print_char leaves the terminal size and the buffer width alone; the weight of one print_char depends on those and the margins only ---- *)
+Definition dims (t : term) := (tw t, th t, bw t).
+Lemma limit_caret_dims t t' : limit_caret_pos t = ROk t' -> dims t' = dims t.
+Proof.
+  unfold limit_caret_pos. destruct (origin_m t); [intro H; inversion H; reflexivity|].
+  destruct (_ <? _); [discriminate|]. intro H; inversion H; reflexivity.
+Qed.
+Lemma caret_lf_dims t t' : caret_lf t = ROk t' -> dims t' = dims t.
+Proof.
+  unfold caret_lf. cbv zeta.
+  set (t2 := if _ >=? _ then _ else _). assert (B2 : dims t2 = dims t) by (subst t2; destruct (_ >=? _); reflexivity).
+  set (t3 := if _ >? bh t2 then _ else _). assert (B3 : dims t3 = dims t) by (subst t3; destruct (_ >? bh t2); [cbn; exact B2|exact B2]).
+  destruct (cy t >? last_edit t).
+  - intro H. rewrite (limit_caret_dims _ _ H). exact B3.
+  - intro H. inversion H. unfold check_scrolling_down. destruct (_ && _); [|exact B3]. cbv zeta. change (dims (set_cy (scroll_up t3) _)) with (dims t3). exact B3.
+Qed.
+Lemma print_char_dims t c t' : print_char t c = ROk t' -> dims t' = dims t.
+Proof.
+  rewrite print_char_unfold. destruct (print_ins t) as [t1|s] eqn:E1; cbn [bind]; [|discriminate]. cbv zeta.
+  assert (B1 : dims t1 = dims t).
+  { revert E1. unfold print_ins. destruct (ins t); [|intro H; inversion H; reflexivity]. destruct (cy t <? 0); [discriminate|]. cbv zeta.
+    destruct (nth_error _ _); [|intro H; inversion H; reflexivity]. destruct (line_insert_char _ _ _); cbn [bind]; [|discriminate]. intro H; inversion H; reflexivity. }
+  set (t2 := if cy t1 + 1 >? lh t1 then set_lh t1 (cy t1 + 1) else t1).
+  assert (B2 : dims t2 = dims t) by (subst t2; destruct (cy t1 + 1 >? lh t1); exact B1).
+  set (t3 := if cy t2 + 1 >? bh t2 then set_bh t2 (cy t2 + 1) else t2).
+  assert (B3 : dims t3 = dims t) by (subst t3; destruct (cy t2 + 1 >? bh t2); exact B2).
+  set (t4 := layer_set t3 (cx t3) (cy t3) c). set (t5 := set_cx t4 (cx t4 + 1)).
+  assert (B5 : dims t5 = dims t) by exact B3.
+  destruct (cx t5 >=? tw t5).
+  - destruct (awrap t5).
+    + intro H. rewrite (caret_lf_dims _ _ H). exact B5.
+    + intro H. inversion H. exact B5.
+  - intro H. inversion H. exact B5.
+Qed.
+Lemma print_weight_le x : Inv09 x -> 0 <= print_weight x <= 1 + th x * (tw x + bw x).
+Proof.
+  intro H. destruct H as [HG HC]. pose proof HG as (Htw & Hth & Hbh & Hbw & Ho & Hm & Hl & Ht).
+  unfold print_weight. unfold needs_scrolling. destruct (mtb x) as [[a b]|] eqn:EM; [|lia].
+  rewrite scroll_up_t_snd. rewrite zlen_zrange, zlen_zrange_incl. unfold first_edit, last_edit, first_col, last_col. rewrite EM.
+  unfold margins_ok in Hm, Hl. unfold sat_sub, sat, I32_MIN, I32_MAX. destruct (mlr x) as [[u v]|]; nia.
+Qed.
+Lemma rep_ticks_le t c n : Inv09 t -> 0 <= ticks (snd (rep_c t c n)) <= scr t * scr t.
+Proof.
+  intro H. destruct (rep_limit_le t H) as (R1 & R2). destruct (scrW_ge t H) as (W1 & _). destruct (scrH_ge t H) as (G1 & _).
+  destruct (inv_facts t H) as (I1 & I2 & I3 & I4 & _).
+  assert (Hg : 1 + th t * (tw t + bw t) <= scr t) by (unfold scr; nia).
+  unfold rep_c. split.
+  - apply iter_res_ticks_nonneg. intro x. unfold print_weight. destruct (needs_scrolling x); [|lia]. destruct (scroll_t_nonneg x) as (Q & _). lia.
+  - pose proof (iter_res_ticks_inv_le (fun x => Inv09 x /\ dims x = dims t) (1 + th t * (tw t + bw t)) (Z.min n (rep_limit t))
+                  (fun x => print_char x c) print_weight t) as HP.
+    assert (ticks (snd (iter_cost_res (Z.min n (rep_limit t)) (fun x => print_char x c) print_weight t)) <= Z.max 0 (Z.min n (rep_limit t)) * (1 + th t * (tw t + bw t))); [|nia].
+    apply HP; [| |split; [exact H|reflexivity]|nia].
+    + intros x x' (Ix & Dx) E. split; [exact (print_char_09 _ _ _ Ix E)|]. rewrite (print_char_dims _ _ _ E). exact Dx.
+    + intros x (Ix & Dx). pose proof (print_weight_le x Ix) as HW. unfold dims in Dx. inversion Dx as [[D1 D2 D3]]. rewrite ?D1, ?D2, ?D3 in *. exact HW.
+Qed.
+
+Lemma ticks_bound_l t p s ch n : Inv09 t -> 0 <= n -> nlen (nums p) <= n ->
   0 <= ticks (snd (csi_final_c t p s ch)) <= 8 * (n + 1) * (scr t * scr t).
 Proof.
-  intros H Hn Hl H98. destruct (cap_facts t H) as (F1 & F2 & F3 & F4 & F5 & F6 & F7 & F8 & F9 & F10 & F11 & F12 & F13).
+  intros H Hn Hl. destruct (cap_facts t H) as (F1 & F2 & F3 & F4 & F5 & F6 & F7 & F8 & F9 & F10 & F11 & F12 & F13).
   destruct (scrW_ge t H) as (_ & _ & W3 & _ & W5). destruct (scrH_ge t H) as (_ & _ & G3).
   pose proof (eff_scrolls_le t H) as HE. pose proof (ich_limit_le t H) as HIC. pose proof (dch_limit_le t H) as HDC.
   pose proof (il_limit_le t H) as HIL. pose proof (dl_limit_le t H) as HDL. pose proof (tab_limit_le t H) as HT.
@@ -139,7 +195,7 @@ Proof.
     rewrite iter_cost_ticks by (intro x; rewrite !scroll_down_t_snd; reflexivity).
     change (eff_scrolls t1) with (eff_scrolls t). destruct (prim_ticks_bound_l t H) as (_ & P2 & _). destruct (scroll_t_nonneg t) as (_ & Q2 & _).
     assert (E : snd (scroll_down_t t1) = snd (scroll_down_t t)) by (rewrite !scroll_down_t_snd; reflexivity). rewrite E. nia. }
-  destruct (ch =? 98) eqn:E98; [apply Z.eqb_eq in E98; contradiction|].
+  destruct (ch =? 98) eqn:E98. { cbn [snd]. pose proof (rep_ticks_le t (print_cell t (last_char p)) (first_or (nums p) 1) H). lia. }
   unfold one. cbn [snd ticks]. pose proof (plain_ticks_bound t p ch n H Hn Hl). lia.
 Qed.
 
